@@ -90,14 +90,17 @@ def jobs(tier, only_ops=None, prefix="C03", nmax_quick=6):
     nmax = 8 if tier == "thorough" else nmax_quick
     J = []
     L = ["src/Exception.c", "src/Iter.c", "stubs/throw.c"]
-    counts = count_dp(nmax)
+    # one more node for insertion only (quick tier of C03 itself): recolouring that travels upward twice needs a 7-node tree (seed C03-set-fix-uncle-not-red)
+    extra = 1 if (tier != "thorough" and not only_ops and prefix == "C03") else 0
+    counts = count_dp(nmax + extra)
     sid = 0
     if not only_ops:
         J.append(Job("%s.accessors.k2" % prefix, "C03", "K2", "Tree/accessors.c", "h_accessors",
                      ["Tree_Get_Parent", "Tree_Set_Parent", "Tree_Get_Color", "Tree_Set_Color", "Tree_Set_Red", "Tree_Set_Black", "Tree_Is_Red", "Tree_Is_Black", "Tree_Left", "Tree_Right"],
                      link=["src/Exception.c", "stubs/throw.c"], replace_calls=["exception_throw:cv_throw"], unwind=4,
                      assumptions=["calloc results are at least 2-aligned"]))
-    for n in range(0, nmax + 1):
+    for n in range(0, nmax + 1 + extra):
+        set_only = n > nmax
         shapes = all_shapes(n) if n else [None]
         if n and len(shapes) != counts[n]:
             J.append(Job("%s.enumerator_mismatch.n%d" % (prefix, n), "C03", "K3", "Tree/nonexistent.c", "h", []))   # exits 2: coverage cannot be claimed
@@ -106,6 +109,8 @@ def jobs(tier, only_ops=None, prefix="C03", nmax_quick=6):
             sid += 1
             def add(op, key=None, covers=False, mop=None):
                 if only_ops and op not in only_ops:
+                    return
+                if set_only and op != "set":
                     return
                 defs = [] if key is None else ["OPKEY=%d" % key]
                 if mop is not None:
